@@ -364,3 +364,94 @@ theorem run_packedM (m : Mode) (c : Cfg) (s : Store) (txn : List Edit) (hchunk :
     exact ⟨fun j => .inl (by simpa using h0), by simpa using h0⟩
 
 end GixModel.C20
+
+namespace GixModel.C20
+open GixModel
+
+theorem prepEditsM_d (c : Cfg) (global : Bool) (g : G) (es : List Edit) :
+    prepEditsM .d c global g es = prepEdits c global g es := by
+  induction es generalizing g with
+  | nil => rfl
+  | cons e es ih =>
+    have he : prepEditM .d c global g e = prepEdit c global g e := by
+      cases e with
+      | delete n => rfl
+      | update n new => cases new <;> simp [prepEditM]
+    simp only [prepEditsM, prepEdits, he, ih]
+
+theorem commitUpdatesM_d (c : Cfg) (s : Store) (g : G) (es : List Edit) :
+    commitUpdatesM .d c s g es = commitUpdates c s g es := by
+  induction es generalizing g with
+  | nil => rfl
+  | cons e es ih =>
+    have he : commitUpdateM .d c s g e = commitUpdate c s g e := by
+      cases e with
+      | delete n => rfl
+      | update n new => cases new <;> simp [commitUpdateM, commitUpdate]
+    simp only [commitUpdatesM, commitUpdates, he, ih]
+
+theorem looseDeletesM_d (s : Store) (global : Bool) (g : G) (es : List Edit) :
+    looseDeletesM .d s global g es = looseDeletes s global g es := by
+  induction es generalizing g with
+  | nil => rfl
+  | cons e es ih =>
+    have he : looseDeleteM .d s global g e = looseDelete s global g e := by
+      cases e with
+      | delete n => rfl
+      | update n new => cases new <;> simp [looseDeleteM, looseDelete]
+    simp only [looseDeletesM, looseDeletes, he, ih]
+
+theorem mem_deleteNames {txn : List Edit} {n : Name} : n ∈ deleteNames txn ↔ Edit.delete n ∈ txn := by
+  simp only [deleteNames, List.mem_filterMap]
+  constructor
+  · rintro ⟨e, he, h⟩
+    cases e with
+    | update m t => simp at h
+    | delete m => simp at h; subst h; exact he
+  · intro h; exact ⟨.delete n, h, rfl⟩
+
+theorem packedCommitM_d (c : Cfg) (s : Store) (txn : List Edit) :
+    packedCommitM .d c s txn = packedCommit c s txn := by
+  unfold packedCommitM packedCommit
+  have hg : s.hasGlobalLockM .d txn = s.hasGlobalLock txn := rfl
+  rw [hg]
+  by_cases h : s.hasGlobalLock txn = true
+  · have hsome : s.packed.isSome = true := by
+      simp only [Store.hasGlobalLock, Bool.and_eq_true] at h; exact h.1
+    obtain ⟨rs, hrs⟩ := Option.isSome_iff_exists.mp hsome
+    have hd : delsOf s txn = s.packedDeletions txn := by simp [delsOf, hsome]
+    have hu : upsOf .d txn = [] := by simp [upsOf]
+    have hr : s.remainingM .d txn = s.remaining txn := by
+      simp only [Store.remainingM, Store.remaining, hu, List.foldl_nil, List.map_nil, hrs, Option.getD_some]
+      apply List.filter_congr
+      intro r hr
+      have : (deleteNames txn).contains r.1 = (s.packedDeletions txn).contains r.1 := by
+        have hp : (s.packedOf r.1).isSome = true := by
+          simp only [Store.packedOf, hrs]
+          cases hf : rs.find? (fun x => decide (x.1 = r.1)) with
+          | some y => rfl
+          | none =>
+            have := List.find?_eq_none.mp hf r hr
+            simp at this
+        cases hc : (s.packedDeletions txn).contains r.1 with
+        | true =>
+          have := (packedDeletions_subset s txn (by simpa using hc)).1
+          simpa using mem_deleteNames.mpr this
+        | false =>
+          cases hc2 : (deleteNames txn).contains r.1 with
+          | false => rfl
+          | true =>
+            have h1 : Edit.delete r.1 ∈ txn := mem_deleteNames.mp (by simpa using hc2)
+            have := mem_packedDeletions s txn h1 hp
+            simp at hc; exact absurd this hc
+      simp only [List.contains_eq_mem, decide_eq_decide] at this
+      simp [this]
+    simp only [h, Bool.not_true, Bool.false_eq_true, if_false, hd, hu, List.isEmpty_nil, Bool.true_and, hr]
+  · simp [h]
+
+/-- in the default mode the steps of the general model are the steps the theorems are about -/
+theorem txnStepsM_d (c : Cfg) (s : Store) (txn : List Edit) : txnStepsM .d c s txn = txnSteps c s txn := by
+  simp only [txnStepsM, txnSteps, prepEditsM_d, commitUpdatesM_d, looseDeletesM_d, packedCommitM_d]
+  rfl
+
+end GixModel.C20
